@@ -10,7 +10,7 @@ import json
 
 import core
 import fmt_rt
-from p_c06 import Fwd, round_trip
+from p_c06 import Fwd, round_trip, check_types, chain_stage
 
 D = decimal.Decimal
 
@@ -132,6 +132,8 @@ def compare_features(chk, viol, cfg, rng, orig, back, mk_info):
                         key = cfg.kbase + "-values"
                         if cfg.fmt == "sym" and any({int(x): y for x, y in o.values.items()} != a for o in names_count[so.name]):
                             key = "sym-values-enum-name-collision"
+                        elif cfg.fmt == "kcd" and so.is_multiplexer and b == {} and not any(x.mux_val is not None for x in fo.signals):
+                            key = "kcd-lone-multiplexer-values"     # <Multiplex> without any MuxGroup: Value/LabelSet are never appended
                         viol(key, "value table changed", info(n), a, b)
                         ok = False
                 if "unit" in car:
@@ -274,6 +276,7 @@ def run(chk):
             if r is None or r[1] is None:
                 continue
             data, back = r
+            check_types(chk, viol, cfg, back, "value", mk_info)
             compare_features(chk, viol, cfg, rng, orig, back, mk_info)
             tie_cases.append((cfg, orig, data, back))
     for label, fmts, db in fmt_rt.directed(C):
@@ -294,8 +297,10 @@ def run(chk):
             r = round_trip(F, cfg, buses, lambda *a, **k: chk.count("round-trip-raises (C06's subject)"), mk_info)
             if r is None or r[1] is None:
                 continue
+            check_types(chk, viol, cfg, r[1], "value", mk_info)
             compare_features(chk, viol, cfg, rng, orig, r[1], mk_info)
             tie_cases.append((cfg, orig, r[0], r[1]))
+    chain_stage(chk, viol, C, F, rng, "C07", 12, compare_features, "value", tie_cases)
     chk.sample({"format": "kcd", "signal": "factor 0.123456789, offset 1.00000001 -> slope/intercept text must give the same Decimals"})
     chk.sample({"format": "json-all", "frame": "multiplexer + groups 0 and 5", "re-read": "is_multiplexer / mux_val per signal, decode selects the group"})
     chk.sample({"format": "sym", "signal": "Signal(is_float=True) with default is_signed=True, 32 bit -> type word float"})
